@@ -87,7 +87,7 @@ class Edits:
 
     def emit(self, out):
         pos = self.a
-        for s, e, text, origin, _ in sorted(self.edits, key=lambda x: (x[0], x[4])):
+        for s, e, text, origin, _ in sorted(self.edits, key=lambda x: (x[0], 0 if x[0] == x[1] else 1, x[4])):
             if s < pos:
                 raise ExtractError(f"{self.src.path}: overlapping rewrite rules at line {self.src.line_of(s)}")
             out.add(self.src.text[pos:s], "repo", self.src.path, self.src.line_of(pos))
@@ -260,7 +260,23 @@ def expand_fn(args, sections, unit_file, out, stats):
         else:
             flags.add(a)
     src = load_src(relpath)
-    fn = src.find_fn(name, opts.get("in"))
+    fn = src.find_fn(name, opts.get("in"), allow_decl=("decl" in flags))
+    if "decl" in flags:
+        # trait method declaration (no body): header verbatim + contract + ';'
+        ed = Edits(src, fn.start, src.toks[fn.k_open][2])
+        if "ret" in opts:
+            span = fn.header_ret_span()
+            a, b = span
+            ed.replace(a, b, f" ({opts['ret']}: {src.text[a:b].strip()}) ", ("rule", "R1-ret", src.line_of(a)))
+        for kind, arg, text, uline in sections:
+            if kind == "spec":
+                ed.insert(src.toks[fn.k_open][1], "\n" + text, ("contract", unit_file, uline + 1))
+        ed.emit(out)
+        out.add("\n", "unit", unit_file, 0)
+        stats.functions.append({"fn": name + " (trait declaration)", "file": relpath,
+                                "lines": [src.line_of(fn.start), src.line_of(src.toks[fn.k_open][1])], "sections": [
+                                    {"kind": "attr", "arg": "external_body (declaration only)", "unit_line": 0, "text": ""}]})
+        return
     ed = Edits(src, fn.start, fn.body_close)
     label = (opts.get("in", "") + "::" if opts.get("in") else "") + name
     if "stub" in flags:
@@ -303,6 +319,9 @@ def expand_fn(args, sections, unit_file, out, stats):
         a, b = span
         ty = src.text[a:b].strip()
         ed.replace(a, b, f" ({opts['ret']}: {ty}) ", ("rule", "R1-ret", src.line_of(a)))
+    apply_auto_rules(src, ed, fn.k_name, fn.k_close, stats, name)
+    apply_r10(src, ed, fn, stats, name)
+    replaced = [(e_[0], e_[1]) for e_ in ed.edits if e_[0] < e_[1]]
     # R4
     if "mutself" in flags:
         s = [k for k in src.sig if fn.k_name < k < fn.k_open]
@@ -316,12 +335,11 @@ def expand_fn(args, sections, unit_file, out, stats):
             raise ExtractError(f"{relpath}: fn {name}: R4 requested but no `mut self`")
         # rename self -> this in body
         for k in src.sig:
-            if fn.k_open < k < fn.k_close and src.toks[k][0] == "ident" and src.tt(k) == "self":
+            if fn.k_open < k < fn.k_close and src.toks[k][0] == "ident" and src.tt(k) == "self" \
+                    and not any(a_ <= src.toks[k][1] < b_ for a_, b_ in replaced):
                 ed.replace(src.toks[k][1], src.toks[k][2], "this", ("rule", "R4", src.line_of(src.toks[k][1])))
         ed.insert(src.toks[fn.k_open][2], " let mut this = self;", ("rule", "R4", src.line_of(fn.body_open)))
         stats.rule("R4")
-    apply_auto_rules(src, ed, fn.k_name, fn.k_close, stats, name)
-    apply_r10(src, ed, fn, stats, name)
     loops = fn.loops()
     closures = fn.closures()
     for kind, arg, text, uline in sections:
@@ -537,6 +555,9 @@ def expand_unit(unit_path, stats=None):
             relpath, kw, name = parts[0], parts[1], parts[2]
             src = load_src(relpath)
             a, b = src.find_item(kw, name)
+            if "opaque" in parts[3:]:
+                # the type is only passed around in this unit: its fields are hidden from the verifier
+                out.add("#[verifier::external_body]\n", "rule", "opaque", src.line_of(a))
             ed = strip_attrs_and_docs(src, a, b)
             ed.emit(out)
             out.add("\n", "unit", unit_file, i + 1)
